@@ -842,4 +842,55 @@ theorem broadcast_spec (h : HostCfg) (s : Svc) (hostTtl svcTtl cap : Nat) (hwf :
       simp only [hp, bind, Except.bind]
 
 
+/-- **PTR record data round trip**: the target name -/
+theorem toPtr_at {d : List Nat} {len : Nat} {r : RecSpec} {pos : Nat} (h : At d len r pos)
+    (target : List (List Nat)) (ht : r.rtype = RT_PTR) (hdata : r.rdata = encName target) (hwf : NameWF target) :
+    toPtr d (r.parsed pos len) = .ok (some (flatName target)) := by
+  obtain ⟨B, hB⟩ := h.data
+  have hfit := h.fit; have hlim := h.lim
+  rw [RecSpec.bytes_length] at hfit
+  rw [hdata] at hB
+  have hlen : r.rdata.length = (encName target).length := by rw [hdata]
+  have hL : pos + r.hdrLen + r.rdata.length ≤ d.length := by omega
+  have e := parseName_flat d ⟨pos + r.hdrLen, pos + r.hdrLen + r.rdata.length⟩ target B hwf hB (by simp only; omega) hL
+  unfold toPtr
+  rw [h.sub]
+  simp only [bind, Except.bind]
+  rw [if_neg (by simp [RecSpec.parsed, ht])]
+  rw [e]; simp only
+  rw [show pos + r.hdrLen + (encName target).length = pos + r.hdrLen + r.rdata.length by omega]
+  exact finish_exact _ _
+
+/-- **a query is never an answer**: `build_query` clears the QR bit and `parse_into_answer` ignores such messages -/
+theorem parse_query (name : List (List Nat)) (rtype : Nat) (scope : Option Nat) :
+    parseIntoAnswer (queryBytes name rtype) scope = .ok none := by
+  unfold parseIntoAnswer
+  have hl : ¬ (queryBytes name rtype).length < 12 := by simp [queryBytes, u16be]
+  have hq : qr (queryBytes name rtype) = false := by simp [queryBytes, qr]
+  rw [if_neg hl, hq]; rfl
+
+/-- the question section written by `build_query` is walked by `msg.answer()` to the end of the message -/
+theorem answerStart_query (name : List (List Nat)) (rtype : Nat) (hwf : NameWF name) (ht : rtype < 65536) :
+    answerStart (queryBytes name rtype) = .ok ⟨(queryBytes name rtype).length, (queryBytes name rtype).length⟩ := by
+  have hlen : (queryBytes name rtype).length = 12 + (encName name).length + 4 := by simp [queryBytes, u16be]; omega
+  have hq : hdrU16 (queryBytes name rtype) 4 = 1 := by simp [queryBytes, hdrU16, u16be]
+  have hdrop : (queryBytes name rtype).drop 12 = encName name ++ (u16be rtype ++ (u16be CLASS_IN ++ [])) := by
+    have : queryBytes name rtype = ([0, 0, 0, 0] ++ u16be 1 ++ u16be 0 ++ u16be 0 ++ u16be 0) ++ (encName name ++ (u16be rtype ++ (u16be CLASS_IN ++ []))) := by
+      simp [queryBytes]
+    rw [this]; exact List.drop_left' rfl
+  unfold answerStart
+  rw [hq]
+  have a := parseName_flat (queryBytes name rtype) ⟨12, (queryBytes name rtype).length⟩ name _ hwf hdrop (by simp only; omega) (Nat.le_refl _)
+  have hd1 : (queryBytes name rtype).drop (12 + (encName name).length) = u16be rtype ++ (u16be CLASS_IN ++ []) := by
+    rw [← List.drop_drop, hdrop, List.drop_left' rfl]
+  have b := parseU16_at (queryBytes name rtype) (12 + (encName name).length) (queryBytes name rtype).length rtype _ ht hd1 (by omega) (Nat.le_refl _)
+  have c := parseU16_at (queryBytes name rtype) (12 + (encName name).length + 2) (queryBytes name rtype).length CLASS_IN _ (by decide) b.2 (by omega) (Nat.le_refl _)
+  simp only [skipQuestions, bind, Except.bind]
+  simp only at a
+  rw [a]; simp only
+  rw [b.1]; simp only
+  rw [c.1]; simp only [pure, Except.pure]
+  rw [hlen]
+
+
 end Codec.Mdns
